@@ -265,4 +265,23 @@ CLAIMED['C13'] = dict(
     technique='Lean 4 theorems over the processor state machine (rates formulation) + integrating monitor + probe + differential correspondence',
 )
 
+CLAIMED['C15'] = dict(
+    text='Theorems (Props/C15.lean, 115) about the model\'s data log for every world: the log is append-only through EVERY model '
+         'function and hence through every executed event (trace_is_append_only: records are never removed or rewritten, old '
+         'records keep their positions); exactly-one-record lemmas with the values of that moment for every site: failure (after '
+         'the resource records, with the part that was in process), received (quality and value before the receive callbacks; '
+         'for a buffer preceded by the level record), produced (written last, after the finish callbacks, once), supplied (exactly '
+         'when the source\'s counter is incremented), resource updates (in order), schedule and work-order records; counter '
+         'invariants: a source\'s produced counter minus its supplied records is preserved, a sink\'s counter grows by the batch '
+         'contents; last-record invariants: every function that changes a pool returns as last record for it the new '
+         '(usage, capacity), every buffer level change is immediately followed by its level record, and "last level record = '
+         'level" is preserved by every script-free event action; regenerated fact sites_complete (decide): the add_datapoint sites '
+         'in the source are exactly the ones the model mirrors. NOT proved: the counter / last-record invariants across events '
+         'that run scenario scripts (needs script hypotheses) - checked after every event on implementation traces by the monitor '
+         '(last level/resource record, counters, one failure record per failure) and by correspondence of the full record stream '
+         'on the floor, maint, sched and rm families.',
+    note=BASE_NOTE,
+    technique='Lean 4 theorems over the data log (append-only by induction through all functions) + monitor + differential correspondence + regenerated site facts',
+)
+
 NOT_CLAIMED = {}
